@@ -71,7 +71,7 @@ fn vc05_rtp_flip_seq_sha1_80() { forged_rtp::<24, 3>(SrtpProfile::Aes128Sha1_80)
 #[kani::stub(std::time::Instant::now, now_stub)]
 fn vc05_rtp_flip_payload_gcm() { forged_rtp::<30, 13>(SrtpProfile::AeadAes128Gcm); }
 
-// @h name=vc05_rtp_flip_byte0_sha1_80 tier=thorough timeout=1500
+// @h name=vc05_rtp_flip_byte0_sha1_80 tier=experimental timeout=1500
 // @fn SrtpContext::unprotect, SrtpPacket::parse, RtpHeader::parse, constant_time_eq
 // @stub std::time::Instant::now -> fixed instant
 // @bound Aes128Sha1_80; genuine 24-byte packet (12 header + 2 payload + tag) with symbolic key/salt/fields and symbolic shared (roc, seq) history; forgery = byte 0 (V/P/X/CC) XOR a symbolic non-zero value
